@@ -72,7 +72,10 @@ RunH(s, o, x) ==
     [] o.op = "create_storage" -> F!CreateStorage(s, o.n)
     [] o.op = "remove"         -> F!Remove(s, o.n)
     [] o.op = "write"          -> F!Write(s, o.n, o.a, o.b)
-    [] o.op = "set_len"        -> F!SetLen(s, o.n, o.a, x[o.n].size)
+    \* the length the handle knows: (repaired) after a failed set_len the handle follows the directory entry, which
+    \* is only changed when its write succeeded; (pinned) the handle kept the length from before the failed call
+    [] o.op = "set_len"        -> F!SetLen(s, o.n, o.a, IF Old \/ F!FindChild(s.m, 0, o.n) = -1 THEN x[o.n].size
+                                                       ELSE F!E(s.m, F!FindChild(s.m, 0, o.n)).size)
 Run(s, o) == RunH(s, o, am)          \* the handle of o.n knows the length the abstract state has
 ApplyPhys(q, x, o) ==
   CASE o.op = "create_stream"  -> P!CreateStream(q, 0, o.n)
